@@ -7,7 +7,7 @@ RULE = ("for valid (pk, message, signature) triples of every set: EVERY single-b
         "the message -- counted inside the harness on the implementation (both builds), which must accept none; verification "
         "under another key (other seed, sibling scheme of the same sizes), other context / mode / hash; a sample of the "
         "alterations is also compared with the model. distinct_nontrivial = distinct scan and verify requests; evaluations adds "
-        "the verify calls made inside the scans. API level: no-context / empty-context signatures of short messages, message extended by zero bytes (across 62/64/136) or with trailing zeros removed.")
+        "the verify calls made inside the scans. API level: no-context / empty-context signatures of short messages, message extended by zero bytes (across 62/64/136) or with trailing zeros removed. An honest signature with an empty hint row after a non-empty one is searched on the implementation (scan::findsigempty) and altered exhaustively, incl. every lower value of that row's counter.")
 EXPLANATION = ("Props/C02.lean: length gate; message / context / mode / hash / key binding as explicit SHAKE-256 collisions. Rejection "
                "of a different (c~, z, h) for the same message is strong unforgeability, not provable: sig_bitflip_partial -- covered by "
                "the exhaustive flip scan only.")
